@@ -83,9 +83,30 @@ def zero(e):
     except Exception:
         pass
     try:
-        return B.nf_is_zero(e, [])
+        return _budgeted(60, lambda: B.nf_is_zero(e, []))
+    except _Undecided:
+        raise
     except Exception:
         return sp.cancel(sp.together(e)) == 0
+
+
+class _Undecided(Exception):
+    pass
+
+
+def _budgeted(seconds, f):
+    """wall-clock budget for one normal form (SIGALRM); an exhausted budget is 'undecided', never a verdict"""
+    import signal
+
+    def h(sig, frm):
+        raise _Undecided("normal form not finished within the budget")
+    old = signal.signal(signal.SIGALRM, h)
+    signal.alarm(int(seconds))
+    try:
+        return f()
+    finally:
+        signal.alarm(0)
+        signal.signal(signal.SIGALRM, old)
 
 
 def cx_zero(e):
@@ -162,9 +183,14 @@ def compare_runs(b, tag, base, scaled, sL, sr, sT, G_scaled_expected, what):
                 bad.append(("integrator", x["layer"], k_, str(y[k_])[:60], str(v)[:60]))
         if str(x["degree"]) != str(y["degree"]) or any(not cx_zero(u - v / sL) for u, v in zip(y["span"], x["span"])):
             bad.append(("integrator", x["layer"], "degree/span"))
+        for nm_, fac in (("radius", 1 / sL), ("density", 1 / sr), ("gravity", sT ** 2 / sL), ("bulk", sT ** 2 / (sr * sL ** 2)), ("shear", sT ** 2 / (sr * sL ** 2))):
+            for i_, (u, v) in enumerate(zip(y[nm_], x[nm_])):
+                if not cx_zero(Cx.of(u) - Cx.of(v) * fac):
+                    bad.append(("integrator", x["layer"], nm_, i_))
+                    break
     if len(sb.start_calls) != len(ss.start_calls) or len(sb.solver_builds) != len(ss.solver_builds):
         bad.append(("different number of calls",))
-    ground(b, f"{KEY}::{what}_arguments[{tag}]", KEY, "the scaled run hands exactly the scaled frequency, radius, density, moduli and G to the starting-condition driver and to every layer's integrator",
+    ground(b, f"{KEY}::{what}_arguments[{tag}]", KEY, "the scaled run hands exactly the scaled frequency, G, radii, densities, gravities and moduli (every slice) to the starting-condition driver and to every layer's integrator",
            not bad, detail=f"{len(sb.start_calls)} start call(s), {len(sb.solver_builds)} integrator set-ups" if not bad else str(bad[:3]), refuted_model=dict(mismatch=str(bad[:3])) if bad else None)
     # (2) every layer's initial vectors
     bad = []
@@ -190,10 +216,12 @@ def compare_runs(b, tag, base, scaled, sL, sr, sT, G_scaled_expected, what):
                 bad.append((zb["call"], i))
     ground(b, f"{KEY}::{what}_surface_system[{tag}]", KEY, "each equation of the scaled run's surface system is a non-zero multiple of the unscaled run's equation (same constants)",
            not bad and len(sb.zgesv_calls) == len(ss.zgesv_calls), detail=f"{len(sb.zgesv_calls)} systems" if not bad else f"(system, row) {bad[:4]}", refuted_model=dict(where=str(bad[:4])) if bad else None)
+    if any(o.decided and o.decided.get("verdict") == "refuted" for o in b.obligations[-3:]):
+        return None          # the premise of the relational CyRK contract failed (reported above): comparing the outputs under it would be meaningless
     return sb, ss
 
 
-def nondim_pair(b, stack, solve_for=TYPES):
+def _nondim_pair(b, stack, solve_for=TYPES):
     tag = "-".join(stack) + ";solve_for=" + "+".join(solve_for)
     try:
         exb, pb, cb = SM.run_solver(b, stack, solve_for=tuple(solve_for), nondim=False, analytic=True)
@@ -245,7 +273,7 @@ def nondim_pair(b, stack, solve_for=TYPES):
            detail=f"{len(ob.complex_love_ptr.data)} numbers" if not bad else str(bad[:2]), refuted_model=dict(which=str(bad[:2])) if bad else None)
 
 
-def rescaled_pair(b, stack, nondim, solve_for=("tidal", "loading")):
+def _rescaled_pair(b, stack, nondim, solve_for=("tidal", "loading")):
     tag = "-".join(stack) + f";nondim={int(nondim)};solve_for=" + "+".join(solve_for)
     a = sp.Symbol("a_scale", positive=True)
     try:
@@ -294,7 +322,7 @@ def rescaled_pair(b, stack, nondim, solve_for=("tidal", "loading")):
            detail=f"{len(ob.full_solution_ptr.data)} entries" if not bad else f"entry {bad[0]}", refuted_model=dict(entry=bad[0]) if bad else None)
 
 
-def alone_vs_together(b, stack, nondim=True):
+def _alone_vs_together(b, stack, nondim=True):
     tag = "-".join(stack) + f";nondim={int(nondim)}"
     try:
         ext, pt, ct = SM.run_solver(b, stack, solve_for=TYPES, nondim=nondim, analytic=True)
@@ -472,14 +500,32 @@ def build(tier="quick", seed=0):
     for st in av:
         alone_vs_together(b, st)
     reciprocity(b)
+    from contracts import tv_radial
+    tv_radial.nondim_and_love(b, seed)
     b.samples.append(dict(nondim_stacks=len(nd), rescaled_stacks=len(rs), alone_vs_together_stacks=len(av)))
     b.explanation = ("relational obligations over pairs of whole-function symbolic executions of the real cf_radial_solver (scaled / unscaled, alone / together), operator equivariance on the "
                      "extracted ODE operators, and the reciprocity lemma chain; all decided by exact normal forms")
     b.assume("CyRK contract: the integrator returns the solution of the linear ODE it is given at the requested nodes; hence (with the proved operator equivariance and the proved relation of "
              "initial vectors) the rows of the scaled run are D^-1 times the rows of the unscaled run. Integrator choice, tolerances and grid refinement enter only through this contract: NOT proved")
     b.assume("starting vectors: cf_find_starting_conditions(scaled arguments) = D^-1 cf_find_starting_conditions(arguments) (per-solution normalisation freedom is C04's subject); assumed here")
-    b.assume("reciprocity: W vanishes on every pair of starting vectors at the start radius (regular solutions at the centre); assumed here, the remaining links (invariance under each "
-             "operator, continuity across interfaces from the C02 conditions, surface algebra with the real find_love_cf) are proved; planet_bulk_density consistent with the surface gravity")
+    b.assume("reciprocity: W vanishes on every pair of starting vectors - imported from C04 (obligations ::ensures:regular_pair[i,j], proved there for the Kamata families and the liquid "
+             "Takeuchi family; refuted for the two solid Takeuchi functions = recorded C04 finding, so reciprocity is NOT established for Takeuchi-started solid cores); the remaining links "
+             "(invariance under each operator, continuity across interfaces from the C02 conditions, surface algebra with the real find_love_cf) are proved here; planet_bulk_density consistent with the surface gravity")
     b.assume("layer stacks enumerated (see C02); ZGESV: info = 0 => A c = b with A non-singular; doubles as reals")
     b.trust("tpv.pyx2py translation of the solver sources and of derivatives/odes.pyx")
     return b
+
+
+def _guard(f, label):
+    def g(b, stack, *a, **k):
+        try:
+            return f(b, stack, *a, **k)
+        except _Undecided as e:
+            b.add(Obligation(oid=f"{KEY}::{label}[{'-'.join(stack)}]::budget", fn=KEY, clause="relational comparison of two whole-solver runs", goal=None,
+                             decided=dict(verdict="undecided", backend="-", reason=str(e), model=None)))
+    return g
+
+
+nondim_pair = _guard(_nondim_pair, "nondim")
+rescaled_pair = _guard(_rescaled_pair, "rescaled")
+alone_vs_together = _guard(_alone_vs_together, "alone_vs_together")
